@@ -184,7 +184,7 @@ theorem overflow_eq (p : Params) (addr : Bytes) (out : Value) (cur : Asset) (pol
       = !fits p addr out.coin (MultiAsset.add [(pol, Asset.add cur [(n, q)])] out.ma) := by
   unfold overflow fits probeLen probeCoin vlen Value.add
   simp only [Int.zero_add]
-  by_cases h : (encValue ⟨minAda p addr ⟨out.coin, MultiAsset.add [(pol, Asset.add cur [(n, q)])] out.ma⟩,
+  by_cases h : (encValue ⟨max (minAda p addr ⟨out.coin, MultiAsset.add [(pol, Asset.add cur [(n, q)])] out.ma⟩) out.coin,
       MultiAsset.add [(pol, Asset.add cur [(n, q)])] out.ma⟩).length ≤ p.maxValSize
   · simp [h]
   · simp [h]; omega
@@ -200,58 +200,50 @@ theorem sizeEq_attempt_flush (out : Value) (pol : Bytes) (t : Asset) (ho : Multi
 /-- a chunk is a single asset of the change on its own -/
 def IsSingle (ch : MultiAsset) (m : MultiAsset) : Prop := ∃ pa ∈ ch, ∃ a ∈ pa.2, m = single pa.1 a
 
-/-- what is known of a closed chunk built under coin `c`: empty, a single asset never measured on its own, or measured
-and found to fit -/
+/-- what is known of a closed chunk (every output is built under the change coin `c`): empty, a single asset never
+measured on its own, or measured and found to fit -/
 def ChunkOK (p : Params) (addr : Bytes) (ch : MultiAsset) (c : Int) (m : MultiAsset) : Prop :=
   m = [] ∨ IsSingle ch m ∨ fits p addr c m = true
 
-/-- the first chunk was built under the change coin, the later ones under coin 0 -/
-def ArrOK (p : Params) (addr : Bytes) (ch : MultiAsset) (c0 : Int) : List MultiAsset → Prop
-  | [] => True
-  | m0 :: rest => ChunkOK p addr ch c0 m0 ∧ ∀ m ∈ rest, ChunkOK p addr ch 0 m
+def ArrOK (p : Params) (addr : Bytes) (ch : MultiAsset) (c0 : Int) (arr : List MultiAsset) : Prop :=
+  ∀ m ∈ arr, ChunkOK p addr ch c0 m
 
 theorem arrOK_snoc (p : Params) (addr : Bytes) (ch : MultiAsset) (c0 : Int) (arr : List MultiAsset) (m : MultiAsset)
-    (h : ArrOK p addr ch c0 arr) (hm : ChunkOK p addr ch (if arr.isEmpty then c0 else 0) m) :
-    ArrOK p addr ch c0 (arr ++ [m]) := by
-  cases arr with
-  | nil => simpa [ArrOK] using hm
-  | cons m0 rest =>
-    simp only [List.isEmpty_cons, Bool.false_eq_true, if_false] at hm
-    simp only [ArrOK, List.cons_append, List.mem_append, List.mem_singleton] at h ⊢
-    refine ⟨h.1, ?_⟩
-    rintro x (hx | hx)
-    · exact h.2 x hx
-    · subst hx; exact hm
+    (h : ArrOK p addr ch c0 arr) (hm : ChunkOK p addr ch c0 m) : ArrOK p addr ch c0 (arr ++ [m]) := by
+  intro x hx
+  simp only [List.mem_append, List.mem_singleton] at hx
+  rcases hx with hx | hx
+  · exact h x hx
+  · subst hx; exact hm
 
 /-- invariant of the inner loop over the assets of policy `pol` (all of them members of `assetsAll`) -/
 structure Inner (p : Params) (addr : Bytes) (ch : MultiAsset) (c0 : Int) (pol : Bytes) (assetsAll : Asset)
     (s : PackState) : Prop where
   wf : StateWF s
   arr : ArrOK p addr ch c0 s.arr
-  coin : s.out.coin = if s.arr.isEmpty then c0 else 0
-  out : s.out.ma = [] ∨ fits p addr s.out.coin s.out.ma = true
-  old : (s.old.ma = [] ∨ fits p addr s.old.coin s.old.ma = true) ∧ s.old.coin = s.out.coin ∧ MultiAsset.WF s.old.ma
-  temp : s.temp = [] ∨ fits p addr s.out.coin (flush s.out pol s.temp).ma = true ∨
-    (s.out = ⟨0, []⟩ ∧ ∃ a ∈ assetsAll, s.temp = Asset.add [] [a])
+  coin : s.out.coin = c0
+  out : s.out.ma = [] ∨ fits p addr c0 s.out.ma = true
+  old : (s.old.ma = [] ∨ fits p addr c0 s.old.ma = true) ∧ s.old.coin = c0 ∧ MultiAsset.WF s.old.ma
+  temp : s.temp = [] ∨ fits p addr c0 (flush s.out pol s.temp).ma = true ∨
+    (s.out = ⟨c0, []⟩ ∧ ∃ a ∈ assetsAll, s.temp = Asset.add [] [a])
 
 theorem packAsset_inner (p : Params) (addr : Bytes) (ch : MultiAsset) (c0 : Int) (pol : Bytes) (assetsAll : Asset)
     (hmem : (pol, assetsAll) ∈ ch) (s : PackState) (a : Bytes × Int) (ha : a ∈ assetsAll)
-    (hs : Inner p addr ch c0 pol assetsAll s) : Inner p addr ch c0 pol assetsAll (packAsset p addr pol s a) := by
-  have hwf' := packAsset_wf p addr pol s a hs.wf
+    (hs : Inner p addr ch c0 pol assetsAll s) : Inner p addr ch c0 pol assetsAll (packAsset p addr c0 pol s a) := by
+  have hwf' := packAsset_wf p addr c0 pol s a hs.wf
   obtain ⟨an, aq⟩ := a
   unfold packAsset at hwf' ⊢
   by_cases ho : overflow p addr s.out s.temp pol an aq = true
   · -- the chunk is closed
     simp only [ho, if_true] at hwf' ⊢
-    have hchunk : ChunkOK p addr ch (if s.arr.isEmpty then c0 else 0)
-        (if s.temp.isEmpty = true then s.out else flush s.out pol s.temp).ma := by
-      rw [← hs.coin]
+    have hchunk : ChunkOK p addr ch c0 (if s.temp.isEmpty = true then s.out else flush s.out pol s.temp).ma := by
       by_cases ht : s.temp.isEmpty = true
       · simp only [ht, if_true]
         rcases hs.out with h | h
         · exact Or.inl h
         · exact Or.inr (Or.inr h)
-      · simp only [ht, if_false]
+      · have ht2 : s.temp.isEmpty = false := by simpa using ht
+        simp only [ht2, Bool.false_eq_true, if_false]
         rcases hs.temp with h | h | ⟨h1, a0, ha0, h2⟩
         · rw [h] at ht; simp at ht
         · exact Or.inr (Or.inr h)
@@ -260,23 +252,23 @@ theorem packAsset_inner (p : Params) (addr : Bytes) (ch : MultiAsset) (c0 : Int)
     exact {
       wf := hwf'
       arr := arrOK_snoc p addr ch c0 s.arr _ hs.arr hchunk
-      coin := by simp
+      coin := rfl
       out := Or.inl rfl
       old := ⟨Or.inl rfl, rfl, MultiAsset.wf_nil⟩
       temp := Or.inr (Or.inr ⟨rfl, (an, aq), ha, rfl⟩) }
   · have ho' : overflow p addr s.out s.temp pol an aq = false := by simpa using ho
     simp only [ho', Bool.false_eq_true, if_false] at hwf' ⊢
     refine { wf := hwf', arr := hs.arr, coin := hs.coin, out := hs.out, old := hs.old, temp := Or.inr (Or.inl ?_) }
-    rw [overflow_eq] at ho'
-    have hf : fits p addr s.out.coin (MultiAsset.add [(pol, Asset.add s.temp [(an, aq)])] s.out.ma) = true := by
+    rw [overflow_eq, hs.coin] at ho'
+    have hf : fits p addr c0 (MultiAsset.add [(pol, Asset.add s.temp [(an, aq)])] s.out.ma) = true := by
       simpa using ho'
-    rw [← fits_sizeEq p addr s.out.coin _ _ (sizeEq_attempt_flush s.out pol _ hs.wf.1 hwf'.2)]
+    rw [← fits_sizeEq p addr c0 _ _ (sizeEq_attempt_flush s.out pol _ hs.wf.1 hwf'.2)]
     exact hf
 
 theorem foldl_inner (p : Params) (addr : Bytes) (ch : MultiAsset) (c0 : Int) (pol : Bytes) (assetsAll : Asset)
     (hmem : (pol, assetsAll) ∈ ch) (as : Asset) (has : ∀ a ∈ as, a ∈ assetsAll) (s : PackState)
     (hs : Inner p addr ch c0 pol assetsAll s) :
-    Inner p addr ch c0 pol assetsAll (as.foldl (packAsset p addr pol) s) := by
+    Inner p addr ch c0 pol assetsAll (as.foldl (packAsset p addr c0 pol) s) := by
   induction as generalizing s with
   | nil => simpa
   | cons a r ih =>
@@ -288,47 +280,49 @@ theorem foldl_inner (p : Params) (addr : Bytes) (ch : MultiAsset) (c0 : Int) (po
 structure Outer (p : Params) (addr : Bytes) (ch : MultiAsset) (c0 : Int) (s : PackState) : Prop where
   wf : MultiAsset.WF s.out.ma
   arr : ArrOK p addr ch c0 s.arr
-  coin : s.out.coin = if s.arr.isEmpty then c0 else 0
-  out : s.out.ma = [] ∨ fits p addr s.out.coin s.out.ma = true
+  coin : s.out.coin = c0
+  out : s.out.ma = [] ∨ fits p addr c0 s.out.ma = true
 
 /-- the state after the inner loop of one policy -/
-def afterPolicy (p : Params) (addr pol : Bytes) (assets : Asset) (s : PackState) : PackState :=
-  assets.foldl (packAsset p addr pol) { s with temp := [], old := s.out }
+def afterPolicy (p : Params) (addr : Bytes) (c0 : Int) (pol : Bytes) (assets : Asset) (s : PackState) : PackState :=
+  assets.foldl (packAsset p addr c0 pol) { s with temp := [], old := s.out }
 
 theorem afterPolicy_inner (p : Params) (addr : Bytes) (ch : MultiAsset) (c0 : Int) (pol : Bytes) (assets : Asset)
     (hmem : (pol, assets) ∈ ch) (s : PackState) (hs : Outer p addr ch c0 s) :
-    Inner p addr ch c0 pol assets (afterPolicy p addr pol assets s) := by
+    Inner p addr ch c0 pol assets (afterPolicy p addr c0 pol assets s) := by
   apply foldl_inner p addr ch c0 pol assets hmem assets (fun a h => h)
   exact { wf := ⟨hs.wf, Dict.wf_nil⟩, arr := hs.arr, coin := hs.coin, out := hs.out,
-          old := ⟨hs.out, rfl, hs.wf⟩, temp := Or.inl rfl }
+          old := ⟨hs.out, hs.coin, hs.wf⟩, temp := Or.inl rfl }
 
 /-- the end-of-policy re-check is the measure `fits` of the flushed output -/
 theorem recheck_eq (p : Params) (addr : Bytes) (out2 : Value) :
-    decide ((encValue ⟨minAda p addr out2, out2.ma⟩).length > p.maxValSize) = !fits p addr out2.coin out2.ma := by
+    decide ((encValue ⟨max (minAda p addr out2) out2.coin, out2.ma⟩).length > p.maxValSize)
+      = !fits p addr out2.coin out2.ma := by
   unfold fits probeLen probeCoin vlen
-  by_cases h : (encValue ⟨minAda p addr out2, out2.ma⟩).length ≤ p.maxValSize
+  by_cases h : (encValue ⟨max (minAda p addr out2) out2.coin, out2.ma⟩).length ≤ p.maxValSize
   · simp [h]
   · simp [h]; omega
 
-theorem packPolicies_cons (p : Params) (addr pol : Bytes) (assets : Asset) (rest : List (Bytes × Asset)) (s : PackState) :
-    packPolicies p addr ((pol, assets) :: rest) s =
-      (let s1 := afterPolicy p addr pol assets s
+theorem packPolicies_cons (p : Params) (addr : Bytes) (c0 : Int) (pol : Bytes) (assets : Asset)
+    (rest : List (Bytes × Asset)) (s : PackState) :
+    packPolicies p addr c0 ((pol, assets) :: rest) s =
+      (let s1 := afterPolicy p addr c0 pol assets s
        let out2 := flush s1.out pol s1.temp
-       if fits p addr out2.coin out2.ma = true then packPolicies p addr rest { s1 with out := out2, temp := [] }
+       if fits p addr out2.coin out2.ma = true then packPolicies p addr c0 rest { s1 with out := out2, temp := [] }
        else ({ s1 with out := s1.old, temp := [] }, true)) := by
   simp only [packPolicies, afterPolicy]
-  have := recheck_eq p addr (flush (assets.foldl (packAsset p addr pol) { s with temp := [], old := s.out }).out pol
-    (assets.foldl (packAsset p addr pol) { s with temp := [], old := s.out }).temp)
-  by_cases h : fits p addr (flush (assets.foldl (packAsset p addr pol) { s with temp := [], old := s.out }).out pol
-      (assets.foldl (packAsset p addr pol) { s with temp := [], old := s.out }).temp).coin
-      (flush (assets.foldl (packAsset p addr pol) { s with temp := [], old := s.out }).out pol
-      (assets.foldl (packAsset p addr pol) { s with temp := [], old := s.out }).temp).ma = true
+  have := recheck_eq p addr (flush (assets.foldl (packAsset p addr c0 pol) { s with temp := [], old := s.out }).out pol
+    (assets.foldl (packAsset p addr c0 pol) { s with temp := [], old := s.out }).temp)
+  by_cases h : fits p addr (flush (assets.foldl (packAsset p addr c0 pol) { s with temp := [], old := s.out }).out pol
+      (assets.foldl (packAsset p addr c0 pol) { s with temp := [], old := s.out }).temp).coin
+      (flush (assets.foldl (packAsset p addr c0 pol) { s with temp := [], old := s.out }).out pol
+      (assets.foldl (packAsset p addr c0 pol) { s with temp := [], old := s.out }).temp).ma = true
   · simp only [h, Bool.not_true, decide_eq_false_iff_not] at this
     simp only [h, if_true, this, if_false]
-  · have h' : fits p addr (flush (assets.foldl (packAsset p addr pol) { s with temp := [], old := s.out }).out pol
-      (assets.foldl (packAsset p addr pol) { s with temp := [], old := s.out }).temp).coin
-      (flush (assets.foldl (packAsset p addr pol) { s with temp := [], old := s.out }).out pol
-      (assets.foldl (packAsset p addr pol) { s with temp := [], old := s.out }).temp).ma = false := by simpa using h
+  · have h' : fits p addr (flush (assets.foldl (packAsset p addr c0 pol) { s with temp := [], old := s.out }).out pol
+      (assets.foldl (packAsset p addr c0 pol) { s with temp := [], old := s.out }).temp).coin
+      (flush (assets.foldl (packAsset p addr c0 pol) { s with temp := [], old := s.out }).out pol
+      (assets.foldl (packAsset p addr c0 pol) { s with temp := [], old := s.out }).temp).ma = false := by simpa using h
     simp only [h', Bool.not_false, decide_eq_true_eq] at this
     simp only [h', Bool.false_eq_true, if_false, this, if_true]
 
@@ -337,7 +331,7 @@ theorem flush_coin (out : Value) (pol : Bytes) (t : Asset) : (flush out pol t).c
 
 theorem packPolicies_outer (p : Params) (addr : Bytes) (ch : MultiAsset) (c0 : Int) (pols : List (Bytes × Asset))
     (hsub : ∀ pa ∈ pols, pa ∈ ch) (s : PackState) (hs : Outer p addr ch c0 s) :
-    Outer p addr ch c0 (packPolicies p addr pols s).1 := by
+    Outer p addr ch c0 (packPolicies p addr c0 pols s).1 := by
   induction pols generalizing s with
   | nil => simpa [packPolicies]
   | cons pa rest ih =>
@@ -347,19 +341,21 @@ theorem packPolicies_outer (p : Params) (addr : Bytes) (ch : MultiAsset) (c0 : I
     simp only
     split
     · rename_i hfit
+      rw [flush_coin, hin.coin] at hfit
       apply ih (fun x hx => hsub x (by simp [hx]))
       exact { wf := wf_flush _ _ _ hin.wf.1, arr := hin.arr, coin := by rw [flush_coin]; exact hin.coin,
               out := Or.inr hfit }
-    · exact { wf := hin.old.2.2, arr := hin.arr, coin := by rw [hin.old.2.1]; exact hin.coin, out := hin.old.1 }
+    · exact { wf := hin.old.2.2, arr := hin.arr, coin := hin.old.2.1, out := hin.old.1 }
 
 def initState (ch : Value) : PackState := { arr := [], out := ⟨ch.coin, []⟩, temp := [], old := ⟨ch.coin, []⟩ }
 
 theorem packTokens_eq (p : Params) (addr : Bytes) (ch : Value) :
-    packTokens p addr ch = ((packPolicies p addr ch.ma (initState ch)).1.arr
-      ++ [(packPolicies p addr ch.ma (initState ch)).1.out.ma], (packPolicies p addr ch.ma (initState ch)).2) := rfl
+    packTokens p addr ch = ((packPolicies p addr ch.coin ch.ma (initState ch)).1.arr
+      ++ [(packPolicies p addr ch.coin ch.ma (initState ch)).1.out.ma],
+      (packPolicies p addr ch.coin ch.ma (initState ch)).2) := rfl
 
 theorem outer_init (p : Params) (addr : Bytes) (chm : MultiAsset) (ch : Value) : Outer p addr chm ch.coin (initState ch) :=
-  { wf := MultiAsset.wf_nil, arr := trivial, coin := rfl, out := Or.inl rfl }
+  { wf := MultiAsset.wf_nil, arr := by intro m hm; simp [initState] at hm, coin := rfl, out := Or.inl rfl }
 
 /-- **provenance of every chunk** `_pack_tokens_for_change` returns, for all inputs -/
 theorem packTokens_arrOK (p : Params) (addr : Bytes) (ch : Value) :
@@ -367,17 +363,14 @@ theorem packTokens_arrOK (p : Params) (addr : Bytes) (ch : Value) :
   rw [packTokens_eq]
   have h := packPolicies_outer p addr ch.ma ch.coin ch.ma (fun _ h => h) (initState ch) (outer_init p addr ch.ma ch)
   apply arrOK_snoc _ _ _ _ _ _ h.arr
-  rw [← h.coin]
   rcases h.out with h1 | h1
   · exact Or.inl h1
   · exact Or.inr (Or.inr h1)
 
-
 /-! ## Part 3 — from provenance to the size bound -/
 
 theorem noSingleOver_iff (p : Params) (addr : Bytes) (ch : Value) :
-    noSingleOver p addr ch = true ↔
-      ∀ pa ∈ ch.ma, ∀ a ∈ pa.2, fits p addr 0 (single pa.1 a) = true ∧ fits p addr ch.coin (single pa.1 a) = true := by
+    noSingleOver p addr ch = true ↔ ∀ pa ∈ ch.ma, ∀ a ∈ pa.2, fits p addr ch.coin (single pa.1 a) = true := by
   simp [noSingleOver, List.all_eq_true]
 
 /-- a bundle fits whatever coin is finally written next to it, up to the difference of the coin widths -/
@@ -393,61 +386,49 @@ theorem fitsX_of_fits (p : Params) (addr : Bytes) (c : Int) (m : MultiAsset) (h 
   have := vlen_shift c' (probeCoin p addr c m) m
   omega
 
-/-- the first chunk under the change coin, the later ones under coin 0 -/
-def ArrFit (p : Params) (addr : Bytes) (c0 : Int) : List MultiAsset → Prop
-  | [] => True
-  | m0 :: rest => FitsX p addr c0 m0 ∧ ∀ m ∈ rest, FitsX p addr 0 m
+def ArrFit (p : Params) (addr : Bytes) (c0 : Int) (l : List MultiAsset) : Prop := ∀ m ∈ l, FitsX p addr c0 m
 
-theorem chunkOK_fitsX (p : Params) (addr : Bytes) (ch : Value) (hs : noSingleOver p addr ch = true) (c : Int)
-    (hc : c = 0 ∨ c = ch.coin) (m : MultiAsset) (h : ChunkOK p addr ch.ma c m) : FitsX p addr c m := by
+theorem chunkOK_fitsX (p : Params) (addr : Bytes) (ch : Value) (hs : noSingleOver p addr ch = true)
+    (m : MultiAsset) (h : ChunkOK p addr ch.ma ch.coin m) : FitsX p addr ch.coin m := by
   rcases h with h | ⟨pa, hpa, a, ha, rfl⟩ | h
   · exact Or.inl h
-  · have := (noSingleOver_iff p addr ch).1 hs pa hpa a ha
-    rcases hc with rfl | rfl
-    · exact fitsX_of_fits _ _ _ _ this.1
-    · exact fitsX_of_fits _ _ _ _ this.2
+  · exact fitsX_of_fits _ _ _ _ ((noSingleOver_iff p addr ch).1 hs pa hpa a ha)
   · exact fitsX_of_fits _ _ _ _ h
 
 theorem packTokens_arrFit (p : Params) (addr : Bytes) (ch : Value) (hs : noSingleOver p addr ch = true) :
-    ArrFit p addr ch.coin (packTokens p addr ch).1 := by
-  have h := packTokens_arrOK p addr ch
-  cases hl : (packTokens p addr ch).1 with
-  | nil => trivial
-  | cons m0 rest =>
-    rw [hl] at h
-    exact ⟨chunkOK_fitsX p addr ch hs _ (Or.inr rfl) m0 h.1,
-           fun m hm => chunkOK_fitsX p addr ch hs 0 (Or.inl rfl) m (h.2 m hm)⟩
+    ArrFit p addr ch.coin (packTokens p addr ch).1 :=
+  fun m hm => chunkOK_fitsX p addr ch hs m (packTokens_arrOK p addr ch m hm)
 
 /-! ## Part 4 — number of chunks -/
 
-theorem packAsset_arr_len (p : Params) (addr pol : Bytes) (s : PackState) (a : Bytes × Int) :
-    (packAsset p addr pol s a).arr.length ≤ s.arr.length + 1 := by
+theorem packAsset_arr_len (p : Params) (addr : Bytes) (c0 : Int) (pol : Bytes) (s : PackState) (a : Bytes × Int) :
+    (packAsset p addr c0 pol s a).arr.length ≤ s.arr.length + 1 := by
   unfold packAsset
   split <;> simp
 
-theorem foldl_arr_len (p : Params) (addr pol : Bytes) (as : Asset) (s : PackState) :
-    (as.foldl (packAsset p addr pol) s).arr.length ≤ s.arr.length + as.length := by
+theorem foldl_arr_len (p : Params) (addr : Bytes) (c0 : Int) (pol : Bytes) (as : Asset) (s : PackState) :
+    (as.foldl (packAsset p addr c0 pol) s).arr.length ≤ s.arr.length + as.length := by
   induction as generalizing s with
   | nil => simp
   | cons a r ih =>
     simp only [List.foldl_cons, List.length_cons]
-    have h1 := ih (packAsset p addr pol s a)
-    have h2 := packAsset_arr_len p addr pol s a
+    have h1 := ih (packAsset p addr c0 pol s a)
+    have h2 := packAsset_arr_len p addr c0 pol s a
     omega
 
-theorem packPolicies_arr_len (p : Params) (addr : Bytes) (pols : List (Bytes × Asset)) (s : PackState) :
-    (packPolicies p addr pols s).1.arr.length ≤ s.arr.length + pairCount pols := by
+theorem packPolicies_arr_len (p : Params) (addr : Bytes) (c0 : Int) (pols : List (Bytes × Asset)) (s : PackState) :
+    (packPolicies p addr c0 pols s).1.arr.length ≤ s.arr.length + pairCount pols := by
   induction pols generalizing s with
   | nil => simp [packPolicies, pairCount]
   | cons pa rest ih =>
     obtain ⟨pol, assets⟩ := pa
     rw [packPolicies_cons]
-    have h1 : (assets.foldl (packAsset p addr pol) { s with temp := [], old := s.out }).arr.length
-        ≤ s.arr.length + assets.length := foldl_arr_len p addr pol assets { s with temp := [], old := s.out }
+    have h1 : (assets.foldl (packAsset p addr c0 pol) { s with temp := [], old := s.out }).arr.length
+        ≤ s.arr.length + assets.length := foldl_arr_len p addr c0 pol assets { s with temp := [], old := s.out }
     simp only [pairCount, List.map_cons, List.sum_cons] at ih ⊢
     split
-    · have h2 := ih { afterPolicy p addr pol assets s with
-        out := flush (afterPolicy p addr pol assets s).out pol (afterPolicy p addr pol assets s).temp, temp := [] }
+    · have h2 := ih { afterPolicy p addr c0 pol assets s with
+        out := flush (afterPolicy p addr c0 pol assets s).out pol (afterPolicy p addr c0 pol assets s).temp, temp := [] }
       simp only [afterPolicy] at h2 ⊢
       omega
     · simp only [afterPolicy]
@@ -456,7 +437,7 @@ theorem packPolicies_arr_len (p : Params) (addr : Bytes) (pols : List (Bytes × 
 theorem packTokens_length (p : Params) (addr : Bytes) (ch : Value) :
     (packTokens p addr ch).1.length ≤ pairCount ch.ma + 1 := by
   rw [packTokens_eq]
-  have := packPolicies_arr_len p addr ch.ma (initState ch)
+  have := packPolicies_arr_len p addr ch.coin ch.ma (initState ch)
   simp only [initState, List.length_nil, Nat.zero_add] at this
   simp only [List.length_append, List.length_cons, List.length_nil]
   simp only [initState]
@@ -480,7 +461,7 @@ structure Inner2 (ch : Value) (s : PackState) : Prop where
 
 theorem packAsset_inner2 (p : Params) (addr : Bytes) (ch : Value) (pol : Bytes) (s : PackState) (a : Bytes × Int)
     (hw : StateWF s) (h2 : Inner2 ch s) (ha : 0 < a.2) (hfc : fits p addr ch.coin (single pol a) = true) :
-    Inner2 ch (packAsset p addr pol s a) ∧ ∃ n, 0 < Asset.qty (packAsset p addr pol s a).temp n := by
+    Inner2 ch (packAsset p addr ch.coin pol s a) ∧ ∃ n, 0 < Asset.qty (packAsset p addr ch.coin pol s a).temp n := by
   obtain ⟨an, aq⟩ := a
   simp only at ha
   have hadd : ∀ (t : Asset), Dict.WF t → ∀ n, Asset.qty (Asset.add t [(an, aq)]) n = Asset.qty t n + if an = n then aq else 0 := by
@@ -541,7 +522,7 @@ theorem foldl_inner2 (p : Params) (addr : Bytes) (chm : MultiAsset) (ch : Value)
     (hmem : (pol, assetsAll) ∈ chm) (as : Asset) (has : ∀ a ∈ as, a ∈ assetsAll) (hne : as ≠ [])
     (hpos : ∀ a ∈ as, 0 < a.2) (hfc : ∀ a ∈ as, fits p addr ch.coin (single pol a) = true) (s : PackState)
     (hs : Inner p addr chm ch.coin pol assetsAll s) (h2 : Inner2 ch s) :
-    Inner2 ch (as.foldl (packAsset p addr pol) s) ∧ ∃ n, 0 < Asset.qty (as.foldl (packAsset p addr pol) s).temp n := by
+    Inner2 ch (as.foldl (packAsset p addr ch.coin pol) s) ∧ ∃ n, 0 < Asset.qty (as.foldl (packAsset p addr ch.coin pol) s).temp n := by
   induction as generalizing s with
   | nil => exact absurd rfl hne
   | cons a r ih =>
@@ -562,10 +543,10 @@ structure Outer2 (ch : Value) (s : PackState) : Prop where
 
 theorem packPolicies_outer2 (p : Params) (addr : Bytes) (ch : Value) (pols : List (Bytes × Asset))
     (hsub : ∀ pa ∈ pols, pa ∈ ch.ma) (hpos : MultiAsset.Pos pols)
-    (hsingle : ∀ pa ∈ pols, ∀ a ∈ pa.2, fits p addr 0 (single pa.1 a) = true ∧ fits p addr ch.coin (single pa.1 a) = true)
+    (hsingle : ∀ pa ∈ pols, ∀ a ∈ pa.2, fits p addr ch.coin (single pa.1 a) = true)
     (s : PackState) (hs : Outer p addr ch.ma ch.coin s) (h2 : Outer2 ch s) :
-    (packPolicies p addr pols s).2 = false ∧ Outer2 ch (packPolicies p addr pols s).1 ∧
-      ((pols ≠ [] ∨ s.out.ma ≠ []) → (packPolicies p addr pols s).1.out.ma ≠ []) := by
+    (packPolicies p addr ch.coin pols s).2 = false ∧ Outer2 ch (packPolicies p addr ch.coin pols s).1 ∧
+      ((pols ≠ [] ∨ s.out.ma ≠ []) → (packPolicies p addr ch.coin pols s).1.out.ma ≠ []) := by
   induction pols generalizing s with
   | nil =>
     refine ⟨by simp [packPolicies], by simpa [packPolicies] using h2, ?_⟩
@@ -578,36 +559,38 @@ theorem packPolicies_outer2 (p : Params) (addr : Bytes) (ch : Value) (pols : Lis
     have hin := afterPolicy_inner p addr ch.ma ch.coin pol assets hmem s hs
     have hin0 : Inner p addr ch.ma ch.coin pol assets { s with temp := [], old := s.out } :=
       { wf := ⟨hs.wf, Dict.wf_nil⟩, arr := hs.arr, coin := hs.coin, out := hs.out,
-        old := ⟨hs.out, rfl, hs.wf⟩, temp := Or.inl rfl }
+        old := ⟨hs.out, hs.coin, hs.wf⟩, temp := Or.inl rfl }
     have h20 : Inner2 ch { s with temp := [], old := s.out } :=
       { tq := by intro n; rw [asset_qty_nil]; omega, oq := h2.oq, ne := h2.ne, start := Or.inr ⟨rfl, h2.start⟩ }
     have hin2 := foldl_inner2 p addr ch.ma ch pol assets hmem assets (fun a h => h) hp.1 hp.2
-      (fun a ha => (hsg a ha).2) _ hin0 h20
-    change Inner2 ch (afterPolicy p addr pol assets s) ∧ ∃ n, 0 < Asset.qty (afterPolicy p addr pol assets s).temp n at hin2
+      (fun a ha => hsg a ha) _ hin0 h20
+    change Inner2 ch (afterPolicy p addr ch.coin pol assets s) ∧ ∃ n, 0 < Asset.qty (afterPolicy p addr ch.coin pol assets s).temp n at hin2
     obtain ⟨hi2, n0, hn0⟩ := hin2
     rw [packPolicies_cons]
     simp only
     -- the re-check at the end of the policy passes
-    have hfit : fits p addr (flush (afterPolicy p addr pol assets s).out pol (afterPolicy p addr pol assets s).temp).coin
-        (flush (afterPolicy p addr pol assets s).out pol (afterPolicy p addr pol assets s).temp).ma = true := by
-      rw [flush_coin]
+    have hfit0 : fits p addr ch.coin
+        (flush (afterPolicy p addr ch.coin pol assets s).out pol (afterPolicy p addr ch.coin pol assets s).temp).ma = true := by
       rcases hin.temp with h | h | ⟨h1, a0, ha0, h3⟩
       · rw [h, asset_qty_nil] at hn0; omega
       · exact h
       · rw [h1, h3]
-        exact (hsg a0 ha0).1
+        exact hsg a0 ha0
+    have hfit : fits p addr (flush (afterPolicy p addr ch.coin pol assets s).out pol (afterPolicy p addr ch.coin pol assets s).temp).coin
+        (flush (afterPolicy p addr ch.coin pol assets s).out pol (afterPolicy p addr ch.coin pol assets s).temp).ma = true := by
+      rw [flush_coin, hin.coin]; exact hfit0
     simp only [hfit, if_true]
-    have hne2 : (flush (afterPolicy p addr pol assets s).out pol (afterPolicy p addr pol assets s).temp).ma ≠ [] := by
+    have hne2 : (flush (afterPolicy p addr ch.coin pol assets s).out pol (afterPolicy p addr ch.coin pol assets s).temp).ma ≠ [] := by
       apply qty_ne_nil _ pol n0
       rw [qty_flush _ _ _ hin.wf.1 hin.wf.2]
       simp only [if_true]
       have := hi2.oq pol n0
       omega
-    have hO : Outer p addr ch.ma ch.coin { afterPolicy p addr pol assets s with
-        out := flush (afterPolicy p addr pol assets s).out pol (afterPolicy p addr pol assets s).temp, temp := [] } :=
-      { wf := wf_flush _ _ _ hin.wf.1, arr := hin.arr, coin := by rw [flush_coin]; exact hin.coin, out := Or.inr hfit }
-    have hO2 : Outer2 ch { afterPolicy p addr pol assets s with
-        out := flush (afterPolicy p addr pol assets s).out pol (afterPolicy p addr pol assets s).temp, temp := [] } :=
+    have hO : Outer p addr ch.ma ch.coin { afterPolicy p addr ch.coin pol assets s with
+        out := flush (afterPolicy p addr ch.coin pol assets s).out pol (afterPolicy p addr ch.coin pol assets s).temp, temp := [] } :=
+      { wf := wf_flush _ _ _ hin.wf.1, arr := hin.arr, coin := by rw [flush_coin]; exact hin.coin, out := Or.inr hfit0 }
+    have hO2 : Outer2 ch { afterPolicy p addr ch.coin pol assets s with
+        out := flush (afterPolicy p addr ch.coin pol assets s).out pol (afterPolicy p addr ch.coin pol assets s).temp, temp := [] } :=
       { oq := by
           intro p' n'
           rw [qty_flush _ _ _ hin.wf.1 hin.wf.2]
@@ -866,8 +849,9 @@ theorem calcChange_arrFit (P : Params) (a : ChangeArgs) (cs : List Output) (h : 
       · simp only [Except.ok.injEq] at h
         subst h
         refine ⟨by simp, ?_, by simp⟩
-        simp only [List.map_cons, List.map_nil, ArrFit]
-        exact ⟨Or.inl rfl, by simp⟩
+        intro m hm
+        simp only [List.map_cons, List.map_nil, List.mem_singleton] at hm
+        exact Or.inl hm
     · have hm := changeLoop_mas _ _ _ _ _ _ h
       refine ⟨?_, ?_, changeLoop_nonlast_coin _ _ _ _ _ _ h⟩
       · intro h0
@@ -881,5 +865,198 @@ theorem calcChange_nobreak (P : Params) (a : ChangeArgs) (hs : noSingleOver P a.
 
 
 theorem changeOf_eq (a : ChangeArgs) : changeOf a = changeValue a := rfl
+
+/-! ## Part 9 — the width of a coin is monotone on the non-negative integers (bignums included) -/
+
+/-- number of base-256 digits the loop of `natBytesAux` emits -/
+def nbLen : Nat → Nat → Nat
+  | 0, _ => 0
+  | fuel+1, n => if n = 0 then 0 else 1 + nbLen fuel (n / 256)
+
+theorem natBytesAux_len (fuel n : Nat) (acc : Bytes) : (natBytesAux fuel n acc).length = acc.length + nbLen fuel n := by
+  induction fuel generalizing n acc with
+  | zero => simp [natBytesAux, nbLen]
+  | succ f ih =>
+    simp only [natBytesAux, nbLen]
+    split
+    · simp
+    · rw [ih]; simp only [List.length_cons]; omega
+
+theorem nbLen_mono (f g a b : Nat) (hf : f ≤ g) (hab : a ≤ b) : nbLen f a ≤ nbLen g b := by
+  induction f generalizing g a b with
+  | zero => simp [nbLen]
+  | succ f ih =>
+    obtain ⟨g', rfl⟩ : ∃ g', g = g' + 1 := ⟨g - 1, by omega⟩
+    simp only [nbLen]
+    by_cases ha : a = 0
+    · simp [ha]
+    · have hb : ¬ b = 0 := by omega
+      simp only [ha, hb, if_false]
+      have := ih g' (a / 256) (b / 256) (by omega) (Nat.div_le_div_right hab)
+      omega
+
+theorem natBytes_len_mono (a b : Nat) (h : a ≤ b) : (natBytes a).length ≤ (natBytes b).length := by
+  unfold natBytes
+  rw [natBytesAux_len, natBytesAux_len]
+  have := nbLen_mono (a + 1) (b + 1) a b (by omega) h
+  simpa using this
+
+theorem nbLen_ge (k f n : Nat) (hk : k < f) (hn : 256 ^ k ≤ n) : k + 1 ≤ nbLen f n := by
+  induction k generalizing f n with
+  | zero =>
+    obtain ⟨f', rfl⟩ : ∃ f', f = f' + 1 := ⟨f - 1, by omega⟩
+    have : ¬ n = 0 := by simp at hn; omega
+    simp only [nbLen, this, if_false]; omega
+  | succ k ih =>
+    obtain ⟨f', rfl⟩ : ∃ f', f = f' + 1 := ⟨f - 1, by omega⟩
+    have hpos : 0 < 256 ^ (k + 1) := Nat.pow_pos (by omega)
+    have : ¬ n = 0 := by omega
+    simp only [nbLen, this, if_false]
+    have h2 : 256 ^ k ≤ n / 256 := by
+      rw [Nat.le_div_iff_mul_le (by omega)]
+      rw [Nat.pow_succ] at hn; exact hn
+    have := ih f' (n / 256) (by omega) h2
+    omega
+
+theorem natBytes_len_ge8 (n : Nat) (h : 2 ^ 64 ≤ n) : 8 ≤ (natBytes n).length := by
+  unfold natBytes
+  rw [natBytesAux_len]
+  have h7 : (256 : Nat) ^ 7 ≤ n := Nat.le_trans (by decide) h
+  have := nbLen_ge 7 (n + 1) n (by omega) h7
+  simp only [List.length_nil]; omega
+
+theorem head_len_mono' (major a b : Nat) (h : a ≤ b) : (head major a).length ≤ (head major b).length := by
+  unfold head
+  simp only
+  repeat' split
+  all_goals simp [beBytes]
+  all_goals omega
+
+theorem head_len_le9 (major a : Nat) : (head major a).length ≤ 9 := by
+  unfold head
+  simp only
+  repeat' split
+  all_goals simp [beBytes]
+
+/-- on the wire a larger non-negative coin is never shorter -/
+theorem coinLen_mono (a b : Int) (h0 : 0 ≤ a) (hab : a ≤ b) : coinLen a ≤ coinLen b := by
+  unfold coinLen ofInt
+  have hb0 : 0 ≤ b := by omega
+  simp only [h0, hb0, if_true]
+  have hn : a.toNat ≤ b.toNat := by omega
+  by_cases hb : b.toNat < 2 ^ 64
+  · have ha : a.toNat < 2 ^ 64 := by omega
+    simp only [ha, hb, if_true]
+    rw [encode, encode]; exact head_len_mono' _ _ _ hn
+  · by_cases ha : a.toNat < 2 ^ 64
+    · simp only [ha, hb, if_true, if_false]
+      simp only [encode, List.length_append]
+      have h1 := head_len_le9 0 a.toNat
+      have h2 := head_len_pos 6 2
+      have h3 := head_len_pos 2 (natBytes b.toNat).length
+      have h4 := natBytes_len_ge8 b.toNat (by omega)
+      omega
+    · simp only [ha, hb, if_false]
+      simp only [encode, List.length_append]
+      have h1 := natBytes_len_mono _ _ hn
+      have h2 := head_len_mono' 2 _ _ h1
+      omega
+
+/-! ## Part 10 — every coin `_calc_change` hands out lies between 0 and the change coin -/
+
+theorem minAda_nonneg (P : Params) (addr : Bytes) (v : Value) (h : 0 ≤ P.cpb) : 0 ≤ minAda P addr v := by
+  have := minAda_ge P addr v h
+  omega
+
+theorem changeLoop_coins (P : Params) (addr : Bytes) (ms : List MultiAsset) (ch : Value) (outs : List Output)
+    (h : changeLoop P addr true ms ch = .ok outs) (hcpb : 0 ≤ P.cpb) :
+    ∀ o ∈ outs, 0 ≤ o.amount.coin ∧ o.amount.coin ≤ ch.coin := by
+  induction ms generalizing ch outs with
+  | nil => simp [changeLoop] at h; subst h; simp
+  | cons m rest ih =>
+    simp only [changeLoop] at h
+    split at h
+    · simp at h
+    · rename_i hchk
+      simp only [Bool.true_and, decide_eq_true_eq] at hchk
+      have hmin := minAda_nonneg P addr ⟨0, m⟩ hcpb
+      split at h
+      · simp at h
+      · rename_i outs' hloop
+        simp only [Except.ok.injEq] at h
+        subst h
+        intro o ho
+        simp only [List.mem_cons] at ho
+        rcases ho with ho | ho
+        · subst ho
+          simp only
+          split
+          · simp only; omega
+          · simp only; omega
+        · have := ih _ _ hloop o ho
+          refine ⟨this.1, ?_⟩
+          have h2 := this.2
+          simp only [Value.sub] at h2
+          split at h2
+          · simp only at h2; omega
+          · simp only at h2; omega
+
+/-- a single packed bundle receives the whole change coin, whatever `respect_min_utxo` -/
+theorem changeLoop_single (P : Params) (addr : Bytes) (r : Bool) (m : MultiAsset) (ch : Value) (outs : List Output)
+    (h : changeLoop P addr r [m] ch = .ok outs) : outs = [{ addr := addr, amount := ⟨ch.coin, m⟩ }] := by
+  simp only [changeLoop] at h
+  split at h
+  · simp at h
+  · simp only [List.isEmpty_nil, if_true, Except.ok.injEq] at h
+    exact h.symm
+
+theorem fitsX_coin (P : Params) (addr : Bytes) (c0 : Int) (m : MultiAsset) (c : Int) (h : FitsX P addr c0 m)
+    (hc0 : 0 ≤ c) (hc : c ≤ c0) : m = [] ∨ vlen ⟨c, m⟩ ≤ P.maxValSize := by
+  rcases h with h | h
+  · exact Or.inl h
+  · right
+    have h1 := h c
+    have h2 : coinLen c ≤ coinLen (probeCoin P addr c0 m) := by
+      apply coinLen_mono _ _ hc0
+      unfold probeCoin
+      omega
+    omega
+
+/-- **every change output fits**: with the minimum-ADA requirement on (or a single change output) -/
+theorem calcChange_fit (P : Params) (a : ChangeArgs) (cs : List Output) (h : calcChange P a = .ok cs)
+    (hs : noSingleOver P a.addr (changeValue a) = true) (hcpb : 0 ≤ P.cpb) (hr : a.respect = true ∨ cs.length = 1) :
+    ∀ o ∈ cs, o.amount.ma = [] ∨ vlen o.amount ≤ P.maxValSize := by
+  have hfit := (calcChange_arrFit P a cs h hs).2.1
+  have hc0 : 0 ≤ (changeValue a).coin := by
+    have := (calcChange_covered P a cs h).1
+    have e : (changeValue a).coin = (provided a).coin - (requested a).coin := by
+      unfold changeValue; split <;> rfl
+    omega
+  have hcoins : ∀ o ∈ cs, 0 ≤ o.amount.coin ∧ o.amount.coin ≤ (changeValue a).coin := by
+    rw [calcChange_eq] at h
+    split at h
+    · simp at h
+    · split at h
+      · split at h
+        · simp at h
+        · simp only [Except.ok.injEq] at h
+          subst h
+          intro o ho; simp at ho; subst ho
+          exact ⟨hc0, Int.le_refl _⟩
+      · rcases hr with hr | hr
+        · rw [hr] at h
+          exact changeLoop_coins P a.addr _ _ cs h hcpb
+        · have hm := changeLoop_mas _ _ _ _ _ _ h
+          have hl : (packTokens P a.addr (changeValue a)).1.length = 1 := by rw [← hm]; simpa using hr
+          match hpk : (packTokens P a.addr (changeValue a)).1, hl with
+          | [m], _ =>
+            rw [hpk] at h
+            have := changeLoop_single _ _ _ _ _ _ h
+            subst this
+            intro o ho; simp at ho; subst ho
+            exact ⟨hc0, Int.le_refl _⟩
+  intro o ho
+  exact fitsX_coin P a.addr _ _ o.amount.coin (hfit o.amount.ma (by simp only [List.mem_map]; exact ⟨o, ho, rfl⟩))
+    (hcoins o ho).1 (hcoins o ho).2
 
 end Pyc.PackFit
